@@ -173,6 +173,20 @@ func c19BlockViewOf(kv *model.KVPair) *c19BlockView {
 	return bv
 }
 
+// snapshotBlocks is the cheap variant for oracles that only look at blocks.
+func (w *c19World) snapshotBlocks() *c19Snapshot {
+	s := &c19Snapshot{Blocks: map[string]*c19BlockView{}, Handles: map[string]map[string]int{}}
+	bl, err := w.store.ReadList(model.BlockListOptions{})
+	if err != nil {
+		panic("HARNESS-GAP: list blocks: " + err.Error())
+	}
+	for _, kv := range bl.KVPairs {
+		bv := c19BlockViewOf(kv)
+		s.Blocks[bv.CIDR] = bv
+	}
+	return s
+}
+
 func (w *c19World) snapshot() *c19Snapshot {
 	s := &c19Snapshot{Blocks: map[string]*c19BlockView{}, Handles: map[string]map[string]int{}}
 	bl, err := w.store.ReadList(model.BlockListOptions{})
@@ -358,6 +372,7 @@ type c19Op struct {
 	Namespace   *corev1.Namespace
 	Pools4      []string
 	MaxBlocks   int
+	AttrMode    int // 0: {"node": host}; 1: nil attributes; 2: empty attributes
 
 	// execution
 	op         *memds.Op
@@ -387,12 +402,12 @@ func (o *c19Op) String() string {
 	var p string
 	switch o.Kind {
 	case c19AutoAssign:
-		p = fmt.Sprintf("num4=%d num6=%d handle=%s use=%s pools=%v maxBlocks=%d", o.Num4, o.Num6, h, o.Use, o.Pools4, o.MaxBlocks)
+		p = fmt.Sprintf("num4=%d num6=%d handle=%s attrs=%s use=%s pools=%v maxBlocks=%d", o.Num4, o.Num6, h, [...]string{"node", "nil", "empty"}[o.AttrMode], o.Use, o.Pools4, o.MaxBlocks)
 		if o.Namespace != nil {
 			p += fmt.Sprintf(" ns=%s%v", o.Namespace.Name, o.Namespace.Labels)
 		}
 	case c19AssignIP:
-		p = fmt.Sprintf("ip=%s handle=%s", o.IP, h)
+		p = fmt.Sprintf("ip=%s handle=%s attrs=%s", o.IP, h, [...]string{"node", "nil", "empty"}[o.AttrMode])
 	case c19ReleaseIPs:
 		for _, r := range o.Rel {
 			s := "-"
@@ -428,6 +443,12 @@ func (o *c19Op) String() string {
 // run executes the operation against the real IPAM client.
 func (o *c19Op) run(ctx context.Context, ic ipam.Interface) {
 	attrs := map[string]string{model.IPAMBlockAttributeNode: o.Host}
+	switch o.AttrMode {
+	case 1:
+		attrs = nil // attributes are optional in AutoAssignArgs / AssignIPArgs
+	case 2:
+		attrs = map[string]string{}
+	}
 	switch o.Kind {
 	case c19AutoAssign:
 		args := ipam.AutoAssignArgs{Num4: o.Num4, Num6: o.Num6, HandleID: o.Handle, Attrs: attrs, Hostname: o.Host,
